@@ -107,7 +107,8 @@ def check(case):
         for v in exp_dense:
             g = np.asarray(space.dense_vars[v], dtype=float)
             e = grid_nodes(spec.variables[v]).astype(float)
-            if g.shape != e.shape or not np.allclose(g, e, rtol=1e-12, atol=0):
+            # (absolute part: a node that is 0 in exact arithmetic is only 0 up to rounding)
+            if g.shape != e.shape or not np.allclose(g, e, rtol=1e-12, atol=1e-12 * float(np.abs(e).max())):
                 msgs.append(f"dense grid {v} is not the full grid")
     exp_axes = ["state_index"] + dd + cs
     if list(info.axis_names) != exp_axes:
